@@ -21,36 +21,7 @@ def _add(c):
     return c
 
 
-M = 'NaN'   # missing marker in reference space
-
-
-def ref_directional(line, forward, limit):
-    """Fill each run of missing cells from the nearest preceding (forward) / following (backward)
-    non-missing value, at most `limit` cells per run (0 = no limit)."""
-    vals = list(line) if forward else list(line)[::-1]
-    out = list(vals)
-    last = M
-    run = 0
-    for i, v in enumerate(vals):
-        if v == M:
-            run += 1
-            if last != M and (limit == 0 or run <= limit):
-                out[i] = last
-        else:
-            last = v
-            run = 0
-    return out if forward else out[::-1]
-
-
-def ref_sided(line, leading, value):
-    vals = list(line) if leading else list(line)[::-1]
-    out = list(vals)
-    for i, v in enumerate(vals):
-        if v == M:
-            out[i] = value
-        else:
-            break
-    return out if leading else out[::-1]
+from vf.refmodels import M, ref_directional, ref_sided, by_axis  # noqa: E402,F401
 
 
 def cells_from_flags(env, flags, base=10):
@@ -150,15 +121,6 @@ def mk_frame(env, flags_rows, layout, dtype='float64'):
     tb = TypeBlocks.from_blocks(layouts.build_blocks(env, cols, dtype, layout))
     f = sf.Frame(tb, index=list(range(100, 100 + nrows)), columns=[chr(97 + c) for c in range(ncols)], name='nm')
     return f, ref_rows
-
-
-def by_axis(ref_rows, axis, fn):
-    """Apply fn to every column (axis 0) or row (axis 1) of the reference."""
-    nrows, ncols = len(ref_rows), len(ref_rows[0])
-    if axis == 1:
-        return [fn(list(r)) for r in ref_rows]
-    cols = [fn([ref_rows[r][c] for r in range(nrows)]) for c in range(ncols)]
-    return [[cols[c][r] for c in range(ncols)] for r in range(nrows)]
 
 
 def mk_frame_directional(nrows, ncols, layout, axis, limit, tier='quick', timeout=None):
